@@ -57,6 +57,13 @@ Theorem C20_offset_is_the_sample_index_on_grid : forall fs k,
 Proof. exact offset_repaired_grid. Qed.
 Print Assumptions C20_offset_is_the_sample_index_on_grid.
 
+(* the same for the time axis as repaired (stamp of sample k = k / fs) *)
+Theorem C20_offset_is_the_sample_index_on_grid_div : forall fs k,
+  In fs [50; 64; 100; 128; 200; 250; 500; 1000; 30]%float -> k < 2000 ->
+  offset_repaired fs (Z2F (Z.of_nat k) / fs)%float = Z.of_nat k.
+Proof. exact offset_repaired_grid_div. Qed.
+Print Assumptions C20_offset_is_the_sample_index_on_grid_div.
+
 (* the plots and limit_df(reset_indices) use one and the same offset *)
 Theorem C20_plot_offset_is_limit_df_offset : forall fs t0, offset_repaired fs t0 = F2Z_round (fs * t0)%float.
 Proof. exact offset_repaired_limit_df. Qed.
